@@ -48,7 +48,7 @@ def _teq(a, b, Expr, memo):
             if not tree_equivalent_any(va, vb, Expr, memo):
                 return False
         else:
-            if type(va) is not type(vb) or I.canon_result(va) != I.canon_result(vb):
+            if denotation(va) != denotation(vb):
                 return False
         try:
             return str(a.operands[1].get_type()) == str(b.operands[1].get_type())
@@ -61,6 +61,29 @@ def _teq(a, b, Expr, memo):
         elif x is not y and x != y:
             return False
     return True
+
+
+def denotation(v):
+    """What a constant's value denotes once it is attached to an operand of a given type (the printers take
+    the type from the like operand, not from the Python type of the value): a named infinity and a literal
+    one, 1 and 1.0, numpy.float64(inf) and inf are the same; numpy.float32(0.1) and 0.1 are not."""
+    import numpy
+
+    if isinstance(v, str):
+        v = {"posinf": float("inf"), "neginf": -float("inf")}.get(v, v)
+        if isinstance(v, str):
+            return ("name", v)
+    if isinstance(v, (bool, numpy.bool_)):
+        return ("bool", bool(v))
+    if isinstance(v, (int, numpy.integer)):
+        return ("num", int(v), 0) if abs(int(v)) > 2**53 else ("num", I.bits64(float(v)), I.bits64(0.0))
+    if isinstance(v, (float, numpy.floating)):
+        f = float(v)
+        return ("num", "nan" if f != f else I.bits64(f), I.bits64(0.0))
+    if isinstance(v, (complex, numpy.complexfloating)):
+        c = complex(v)
+        return ("num", "nan" if c.real != c.real else I.bits64(c.real), "nan" if c.imag != c.imag else I.bits64(c.imag))
+    return ("other", repr(v))
 
 
 def tree_equivalent_any(a, b, Expr, memo):
@@ -212,6 +235,9 @@ class Oracle:
         if t not in EXEC_TARGETS:
             return
         g = req["g"]
+        if rec.get("tag") == "history-only":
+            self.bump(self.stats, "texts_of_top_down_requests_not_judged")
+            return
         if req["func"].startswith("gen:") and not self.is_baseline:
             # generated programs are judged differentially: flagged only if the same request, made alone on a
             # fresh context without faults, passes the same oracle (program-dimension defects are not claimed)
